@@ -44,6 +44,14 @@ func (wrapper DelegationHooksWrapper) AfterUndelegationStarted(
 	) {
 		// if the operator is opting out, we need to use the finish epoch of the opt out.
 		unbondingCompletionEpoch = wrapper.keeper.GetOperatorOptOutFinishEpoch(ctx, operator)
+		if unbondingCompletionEpoch < 0 {
+			// the epoch at the end of which the opt out finishes has already ended (the
+			// epochs hook in this block's BeginBlock removed the finish epoch), and the
+			// removal will be completed in this block's EndBlock. the unbonding period of
+			// the operator is over, so there is nothing to hold the undelegation for.
+			// without this check, the (negative) epoch produces a nil store key and a panic.
+			return nil
+		}
 		// even if the operator opts back in, the undelegated vote power does not reappear
 		// in the picture. slashable events between undelegation and opt in cannot occur
 		// because the operator is not in the validator set.
